@@ -3,6 +3,7 @@
 //! Re-exports of crate-private items that the verification harness drives directly, and the
 //! virtual clock used in place of `std::time::Instant::now()`.
 
+pub use crate::bencode::Error as BencodeError;
 pub use crate::bucket::{Bucket, MAX_BUCKET_SIZE};
 pub use crate::node::{Node, NodeHandle, NodeStatus};
 pub use crate::storage::AnnounceStorage;
